@@ -359,6 +359,13 @@ def expandOne (cx : PCtx) (action : Bool) (str : Bytes) : PM Bytes := fun s =>
   | none => .err s.tokLine s
   | some (v, ms) => .ok v { s with macros := ms }
 
+/-- `expandmacros(str, macros, ctx)` alone in a semantic action, without tilde expansion: the strings of add-header and
+flags (/repo commit 441105a). -/
+def expandMac (action : Bool) (str : Bytes) : PM Bytes := fun s =>
+  match expandMacros action (str.length + 1) str s.macros [] with
+  | none => .err s.tokLine s
+  | some (v, ms) => .ok v { s with macros := ms }
+
 def expandAll (cx : PCtx) (action : Bool) (strs : List Bytes) : PM (List Bytes) := fun s =>
   match expandStrs cx.home action s.macros strs with
   | none => .err s.tokLine s
@@ -613,7 +620,8 @@ def parseActionWith (cx : PCtx) (fuel : Nat) (exprs : PM CTree) (k : Kw) : Optio
       shift
       let s ← parseStr cx
       let l ← curLine cx
-      pure (.leaf (.flags l s)))
+      let s' ← expandMac false s
+      pure (.leaf (.flags l s')))
   | .label => some (do
       shift
       let ss ← parseStrings cx fuel
@@ -642,7 +650,9 @@ def parseActionWith (cx : PCtx) (fuel : Nat) (exprs : PM CTree) (k : Kw) : Optio
       let k ← parseStr cx
       let v ← parseStr cx
       let l ← curLine cx
-      pure (.leaf (.addHeader l k v)))
+      let k' ← expandMac false k
+      let v' ← expandMac true v
+      pure (.leaf (.addHeader l k' v')))
   | _ => none
 
 mutual
